@@ -3,7 +3,7 @@ from harness import toffset
 
 PROPERTY = 'C11'
 THOROUGH_SCALE = 2.0
-CELLS = toffset.putsrc_offset_cells('T1', False, ('tuple', 'deco2', 'call', 'binop'))
+CELLS = toffset.putsrc_offset_cells('T1', False, ('tuple', 'deco2', 'call', 'binop', 'call3kw', 'call3st'))
 
 
 # ---------------------------------------------------------------------------------------------------------------- P1
